@@ -252,7 +252,7 @@ class XtrDeep(Xtr):
     """Pathnames from PATH_MAX to 3*PATH_MAX (edit_deep_directories chdir()s into intermediate directories)."""
     name = 'xtrdeep'
     harness = 'xtr'
-    DEEPMODE = 'deepmon'
+    DEEPMODE = 'deep'     # 'deepmon' = monitor only (predicate on the implementation's lines)
 
     def gen(self, rng, tier):
         n = 60 if tier == 'quick' else 1200
